@@ -706,7 +706,12 @@ class Interp:
                     new = old.copy(orth=None, taint=old.taint | res.taint,
                                    lg=None)
                     if isinstance(st, ast.Assign):
-                        # plain store of a value into a (zero) array
+                        # plain store of a value into a (zero) array; a
+                        # numeric literal has degree 0 in every scalar
+                        if res.deg is None and res.has_const() and \
+                                isinstance(res.c, (int, float)) and \
+                                not isinstance(res.c, bool):
+                            res = res.copy(deg={})
                         if old.note == 'zeros' and res.deg is not None and \
                                 (old.deg in (None, {}) or old.deg == res.deg):
                             new.deg = res.deg
@@ -731,6 +736,7 @@ class Interp:
 
     def st_If(self, st, env):
         cond = self.eval(st.test, env)
+        self.truth_site(cond, st.test)
         t = self.truth(cond)
         if t is None:
             t = self.assumed(st.test, env)
@@ -1501,6 +1507,23 @@ class Interp:
 
     # ------------------------------------------------------------------
     # truth / refinement
+    def truth_site(self, v, node):
+        """K-truth: the truth value of an array with more than one element
+        is an error at run time (``if not a[1:]:`` for an ndarray a)."""
+        if v is None or v.k != 'arr' or v.dims is None or not v.dims:
+            return
+        n = 1
+        for d_ in v.dims:
+            c = d_.as_int() if d_ is not None else None
+            if c is None:
+                return
+            n *= c
+        if n > 1:
+            self.site('K-truth', node, 'violation',
+                      'truth value of an array with %d elements (shape %s): '
+                      'ValueError at run time when the operand is an '
+                      'ndarray' % (n, [d_.as_int() for d_ in v.dims]))
+
     def truth(self, v):
         if v is None:
             return None
@@ -1737,6 +1760,7 @@ class Interp:
 
     def ex_IfExp(self, node, env):
         c = self.eval(node.test, env)
+        self.truth_site(c, node.test)
         t = self.truth(c)
         if t is None:
             t = self.assumed(node.test, env)
@@ -1822,8 +1846,10 @@ class Interp:
         is_and = isinstance(node.op, ast.And)
         vals = []
         e = env
-        for v in node.values:
+        for i_, v in enumerate(node.values):
             x = self.eval(v, e)
+            if i_ < len(node.values) - 1:
+                self.truth_site(x, v)
             t = self.truth(x)
             if is_and and t is False:
                 return x if x.k != 'top' else BOOL(False)
@@ -1854,6 +1880,7 @@ class Interp:
     def ex_UnaryOp(self, node, env):
         v = self.eval(node.operand, env)
         if isinstance(node.op, ast.Not):
+            self.truth_site(v, node.operand)
             t = self.truth(v)
             return BOOL(not t) if t is not None else BOOL()
         return self.np.unop(node.op, v, node)
@@ -2095,6 +2122,10 @@ class Interp:
                                 if self.mod() else ''))
         self.cb_calls.append((self.where(), node, list(pos), dict(kw)))
         r = TOP('call')
+        # the object a user callback hands back: label ('CB', line), so that a
+        # result which is still that very object (no conversion / copy in
+        # between) can be told from a value computed from it
+        r.org = frozenset({('CB', getattr(node, 'lineno', 0))})
         return r
 
     def call_lambda(self, fv, pos, kw, node):
